@@ -106,6 +106,72 @@ func (x *xl) nodes(l *parse.ListNode) []string {
 	return out
 }
 
+// lessBody: the nodes of the generated Less between its header line and its closing brace, as
+// tnodes: TBlock for the invocation of the recursive template on <sorter>.PriorityTree, TText for
+// literal text, TUnknown for anything else (a statement added to Less next to the key chain).
+func lessBody(l *parse.ListNode, self string) ([]string, bool) {
+	if l == nil {
+		return nil, false
+	}
+	for i, n := range l.Nodes {
+		switch v := n.(type) {
+		case *parse.TextNode:
+			txt := string(v.Text)
+			k := strings.Index(txt, ") Less(")
+			if k < 0 {
+				continue
+			}
+			var out []string
+			rest := txt[k:]
+			if b := strings.Index(rest, "{"); b >= 0 {
+				if t := rest[b+1:]; strings.TrimSpace(t) != "" {
+					out = append(out, "TText "+q(t))
+				}
+			}
+			for _, m := range l.Nodes[i+1:] {
+				switch w := m.(type) {
+				case *parse.TextNode:
+					t := string(w.Text)
+					if e := strings.Index(t, "}"); e >= 0 {
+						if strings.TrimSpace(t[:e]) != "" {
+							out = append(out, "TText "+q(t[:e]))
+						}
+						return out, true
+					}
+					out = append(out, "TText "+q(t))
+				case *parse.TemplateNode:
+					arg := ""
+					if w.Pipe != nil {
+						arg = w.Pipe.String()
+					}
+					if w.Name == self && strings.HasSuffix(arg, ".PriorityTree") {
+						out = append(out, "TBlock")
+					} else {
+						out = append(out, "TUnknown "+q(w.String()))
+					}
+				case *parse.CommentNode:
+				default:
+					out = append(out, "TUnknown "+q(m.String()))
+				}
+			}
+			return out, true
+		case *parse.RangeNode:
+			if out, ok := lessBody(v.List, self); ok {
+				return out, true
+			}
+		case *parse.IfNode:
+			if out, ok := lessBody(v.List, self); ok {
+				return out, true
+			}
+		case *parse.WithNode:
+			if out, ok := lessBody(v.List, self); ok {
+				return out, true
+			}
+		}
+	}
+	return nil, false
+}
+
 // lessTemplate: the name of the template invoked between `Less(` and the end of that func
 func lessTemplate(l *parse.ListNode, seenLess *bool) string {
 	if l == nil {
@@ -162,10 +228,16 @@ func main() {
 		x := &xl{self: name, dot: map[string]bool{}}
 		body = "[" + strings.Join(x.nodes(tr.Root), ";\n   ") + "]"
 	}
+	lb := "[TUnknown \"Less not found\"]"
+	if nodes, ok := lessBody(trees["gsort.gotmpl"].Root, name); ok {
+		lb = "[" + strings.Join(nodes, "; ") + "]"
+	}
 	text := "(* GsortTmplGen.v — REGENERATED on every run by harness/cmd/xlate_gsort_tmpl from\n" +
 		"   gsort/gen/gsort.gotmpl (the template `" + name + "` invoked by the generated Less).  Do not edit. *)\n" +
 		"From Coq Require Import String List.\nFrom GT Require Import GSortTmplModel.\nImport ListNotations.\nLocal Open Scope string_scope.\n\n" +
-		"Definition gen_block : list tnode :=\n  " + body + ".\n"
+		"Definition gen_block : list tnode :=\n  " + body + ".\n\n" +
+		"(* the body of the generated Less: what stands between its header and its closing brace *)\n" +
+		"Definition gen_less_body : list tnode :=\n  " + lb + ".\n"
 	if err := os.WriteFile(*out, []byte(text), 0o644); err != nil {
 		fmt.Fprintln(os.Stderr, "xlate_gsort_tmpl:", err)
 		os.Exit(1)
